@@ -867,6 +867,7 @@ fn site_name(text: &str) -> String {
         ("String::from_utf8(res_msg.answer.name).unwrap()", "panic:unwrap:client_from_utf8"),
         ("Ipv4Address::new([rdata[0],rdata[1],rdata[2],rdata[3]])", "panic:index:client_rdata"),
         ("Ok(self.get_mapping(&name).unwrap())", "panic:unwrap:client_get_mapping"),
+        ("*self.local_ports.write().unwrap()+=1;", "panic:overflow:ephemeral_port"),
     ];
     for (k, v) in table {
         if t.contains(k) {
@@ -917,6 +918,24 @@ pub fn run(args: &Args) {
                 eprintln!("c20: replay file holds no case");
                 std::process::exit(2);
             }
+        }
+    } else if args.prop == "c20-ports" {
+        // one client resolving `n` distinct registered names one after the other: every miss opens
+        // a socket on a new ephemeral port (finding F-C20-4 at the 16 384th)
+        let n: usize = args.extra.get("n").and_then(|v| v.parse().ok()).unwrap_or(0);
+        if n > 0 {
+            let names: Vec<Vec<u8>> = (0..n).map(|i| format!("n{:05}", i).into_bytes()).collect();
+            cases.push(Case {
+                arp: false,
+                conns: u16::MAX,
+                dseed: 1,
+                dmax: 0,
+                lat: 100,
+                rogue: "none".into(),
+                records: names.iter().enumerate().map(|(i, nm)| (nm.clone(), [10, (i >> 16) as u8, (i >> 8) as u8, i as u8])).collect(),
+                clients: 1,
+                plan: names.iter().enumerate().map(|(i, nm)| (0, i as u64 * 1000, nm.clone())).collect(),
+            });
         }
     } else {
         let long_ok = args.extra.get("long").map(|v| v != "0").unwrap_or(true);
